@@ -78,7 +78,8 @@ func VerifC07_issuer_origin_and_name_key() {
 	case 1:
 		issuer, _, _ := c07Honest("a", "a")
 		other := t3Issuer("a")
-		vAssume(!vBytesEq(other.NameKey().Marshal(), issuer.NameKey().Marshal()))
+		// issuers set up independently have different name keys (fresh randomness does not repeat)
+		vAssert(!vBytesEq(other.NameKey().Marshal(), issuer.NameKey().Marshal()), "independent-issuers-have-different-name-keys")
 		secret := vBytes("client_secret_b", 48, 48)
 		vAssume(secret[0] != 0)
 		blind := vBytes("blind_b", 48, 48)
